@@ -43,6 +43,7 @@ func init() {
 		}
 		// the aliases moq reads back from its own earlier output: a new import starts with exactly the alias found in the source files
 		gen.CheckImports(c.Run, c.Prog)
+		importTables(c)
 		c.Run.Floor("G-RM/before-load", 1)
 		c.Run.Floor("G-RM/error", 2)
 	})
